@@ -8,6 +8,7 @@ import (
 	"image/color"
 	"math"
 	"sort"
+	"strings"
 	"sync"
 	"time"
 
@@ -232,6 +233,24 @@ func runC02(r *core.Run) {
 	r.Rule = "ascending float32 sequences per encoder (quick: every quantiser bucket boundary and table node +/-2 ulp, 4096 points per binade, specials, out-of-range sample; thorough: every float32 bit pattern in [0,1], 2^24 out-of-range patterns, 2^23 NaN payloads) and a 33^3 x 9-alpha lattice through the colour types; non-trivial = distinct (encoder, output code, side of nearest table node) observed for 0<x<1, plus distinct lattice cells with a channel strictly inside (0,1)"
 	r.Assumptions = []string{"reference OETFs from refcolor", "rounding slack h'=1.02*h and eps=max*2^-21 are analytic float32 bounds (DESIGN.md C02)", "float->int conversion of NaN is whatever amd64 does; only absence of a panic is demanded"}
 	encs := c02Encoders()
+	// first use under contention: every encoder's very first calls come from eight goroutines
+	{
+		probe := []float32{1, 0.5, 0.25, 0.001, 0.9999, 2, 0}
+		firstUseBurst(8, strings.Contains(r.Variant, "stagger") || r.Variant == "", func(g int) {
+			for i := range encs {
+				e := &encs[(i+g)%len(encs)]
+				for _, x := range probe {
+					if bad, kind, msg, _ := c02CheckPoint(e, x); bad {
+						r.Violate("point", e.Name+"/"+kind+"/first-use", msg+" (among the first calls of the process, eight goroutines at once)", c02Case{e.Name, math.Float32bits(x), fmt.Sprint(x), 0})
+					}
+				}
+			}
+		})
+		r.AddEvals(int64(8 * len(encs) * len(probe)))
+		if isBurst(r.Variant) {
+			return
+		}
+	}
 	pts := c02QuickPoints(r.Seed)
 	nanPts := []float32{float32(math.NaN()), math.Float32frombits(0x7fc00001), math.Float32frombits(0xffc00000), math.Float32frombits(0x7f800001), math.Float32frombits(0xffffffff)}
 	seen := make([]*c02Seen, len(encs))
@@ -280,7 +299,7 @@ func runC02(r *core.Run) {
 		mu.Unlock()
 	}
 	if r.Variant == "" {
-		for _, v := range []string{"decfirst@3", "decfirst+rev@1", "rev@6"} {
+		for _, v := range append([]string{"decfirst@3", "decfirst+rev@1", "rev@6"}, burstVariants...) {
 			r.RunVariantChild(v, 10*time.Minute, false)
 		}
 		r.Obs("fresh_process_variants", []string{"decfirst@3", "decfirst+rev@1", "rev@6"})
